@@ -223,6 +223,8 @@ class P(Prop):
         ds = [case["ts"][i + 1] - case["ts"][i] for i in range(len(case["ts"]) - 1)]
         if len(set(ds)) < len(ds):
             t.append("two-equal-intervals")
+        if any(x != int(x) for x in case["ts"]):
+            t.append("time-stamps-not-whole-seconds")
         if isinstance(case["aux"], list) and any(a == 0 for a in case["aux"][:-1]) and not all(a == 0 for a in case["aux"]):
             t.append("some-per-sample-aux-exactly-0")
         return t
